@@ -172,8 +172,21 @@ impl RtpsWriterProxy {
         // FIND change FROM this.changes_from_writer SUCH-THAT
         // (change.sequenceNumber == a_seq_num);
         // change.status := RECEIVED; change.is_relevant := FALSE;
-        if a_seq_num > self.highest_received_change_sn {
-            self.highest_received_change_sn = a_seq_num;
+        self.irrelevant_change_range_set(a_seq_num, a_seq_num);
+    }
+
+    /// Marks the inclusive range of changes as irrelevant. Only a range that is contiguous with
+    /// the changes already received can be skipped, otherwise earlier changes that are still
+    /// missing would be lost. The writer repeats the GAP when the change is requested again.
+    pub fn irrelevant_change_range_set(
+        &mut self,
+        first_seq_num: SequenceNumber,
+        last_seq_num: SequenceNumber,
+    ) {
+        if first_seq_num <= self.available_changes_max().saturating_add(1)
+            && last_seq_num > self.highest_received_change_sn
+        {
+            self.highest_received_change_sn = last_seq_num;
         }
     }
 
